@@ -610,7 +610,7 @@ class Runner:
         hdrs, body, method = [], None, "GET"
         if kind == "propfind":
             method = "PROPFIND"
-            props = [P_ETAG, P_RT, P_DISPLAYNAME, P_SYNC, P_CTAG, "{DAV:}supported-report-set", "{DAV:}getcontenttype", "{DAV:}current-user-principal", "{urn:ietf:params:xml:ns:caldav}supported-calendar-component-set", "{DAV:}owner"]
+            props = [P_ETAG, P_RT, P_DISPLAYNAME, P_SYNC, P_CTAG, "{DAV:}supported-report-set", "{DAV:}getcontenttype", "{DAV:}current-user-principal", "{urn:ietf:params:xml:ns:caldav}supported-calendar-component-set", "{DAV:}owner", P_CALCOLOR, P_CALORDER, P_CALDESC, P_ABDESC, P_ABCOLOR, P_COMMENT, "{DAV:}add-member", "{urn:ietf:params:xml:ns:caldav}calendar-home-set", "{DAV:}principal-URL"]
             body = dav.propfind_body(allprop=True) if st.get("allprop") else dav.propfind_body(props)
             hdrs = [("Depth", str(st.get("depth", 0))), dav.XML_CT]
         elif kind in ("get", "head", "options"):
